@@ -319,7 +319,8 @@ def run(ctx):
         "at most one such event per cancelled execution",
         "keep-alive / heartbeat intervals are set to 1h (no timer-driven output), the subscription poll interval to 1ms, the init timeout to "
         "400ms in schedules with a timeout step (1h otherwise)",
-        "graphql-ws: connection_terminate and InitFunc rejections are not in the alphabet",
+        "graphql-ws connection_terminate is not in the alphabet; read errors are injected below the frame codec (no corrupt frame bytes); the read-error "
+        "time-out is 150ms in schedules with a broken transport (1h otherwise), the graphql-ws keep-alive 3ms in schedules with a refused init",
     ]
 
 
@@ -459,8 +460,8 @@ def replay_and_judge(ctx, binary, cases, nproc, single=False):
         "traces_validated_against_impl": len(verdicts),
         "evaluations": len(cases),
         "distinct_nontrivial": len(distinct),
-        "rule": "one case = one TLC-generated schedule (client message sequence over the 12-symbol alphabet interleaved with engine events "
-                "data/fin/result/error, the init timeout and held terminal writes) replayed into the real server in one mode (tc: scripted "
+        "rule": "one case = one TLC-generated schedule (client message sequence over the 15-symbol alphabet - incl. transport read errors, undeserializable subscribe payloads, refused inits - interleaved with engine events "
+                "data/fin/result/error, the init timeout, a transport broken for good and held terminal writes) replayed into the real server in one mode (tc: scripted "
                 "TransportClient + scripted executors; conn: real Client + frame codec over a scripted net.Conn; v2: scripted TransportClient + the "
                 "real ExecutorV2 on a small engine); distinct by (protocol, mode, steps incl. wire variants); non-trivial = at least two "
                 "client messages and (an engine event / timeout, or two different symbols)",
